@@ -125,6 +125,11 @@ def _op():
         st.tuples(st.just('popitem')),
         st.tuples(st.just('clear')),
         st.tuples(st.just('copy'), st.sampled_from(['copy', 'copy.copy', 'deepcopy', 'pickle2', 'pickle4', 'pickle5', 'ctor'])),
+        # one and the same argument object passed again after the caller changed it (the OMD must not have adopted it)
+        st.tuples(st.just('addlist_shared'), _ki, st.lists(_vi, max_size=3)),
+        st.tuples(st.just('update_shared'), st.sampled_from(['update', 'update_extend']), _pairs),
+        # many values under one key / many keys (sizes beyond the small-int cache: 257+)
+        st.tuples(st.just('addmany'), _ki, st.sampled_from([257, 300]), st.sampled_from(['addlist', 'add', 'update_extend'])),
     ).map(list)
 
 
@@ -374,6 +379,8 @@ def run(case):
     had_multi = False
     nontrivial = False
     olds = []
+    shared_list = []
+    shared_pairs = []
     for op, full_check in expand_ops(case, (1,)):
         name = op[0]
         opname = name
@@ -392,6 +399,41 @@ def run(case):
                        'gen': lambda: (x for x in list(vs))}[form]()
                 got = _call(omd.addlist, k, arg)
                 for v in vs:
+                    m.add(k, v)
+            elif name == 'addlist_shared':
+                k = KEYS[op[1] % len(KEYS)]
+                vs = [VALUES[i % len(VALUES)] for i in op[2]]
+                shared_list[:] = vs             # the caller's own list object, reused and changed between calls
+                got = _call(omd.addlist, k, shared_list)
+                for v in vs:
+                    m.add(k, v)
+            elif name == 'update_shared':
+                pairs = _mk_pairs(op[2])
+                shared_pairs[:] = pairs
+                if op[1] == 'update':
+                    got = _call(omd.update, shared_pairs)
+                    _model_update(m, 'pairs', pairs, [])
+                else:
+                    got = _call(omd.update_extend, shared_pairs)
+                    _model_extend(m, 'pairs', pairs, [])
+            elif name == 'addmany':
+                if len(m.pairs) > 1200:
+                    continue        # keep long (repeated) histories bounded
+                k = KEYS[op[1] % len(KEYS)]
+                n = op[2]
+                vals = list(range(n))
+                if op[3] == 'addlist':
+                    got = _call(omd.addlist, k, vals)
+                elif op[3] == 'add':
+                    got = ('ok', None)
+                    for v in vals:
+                        r1 = _call(omd.add, k, v)
+                        if r1 != ('ok', None):
+                            got = r1
+                            break
+                else:
+                    got = _call(omd.update_extend, [(k, v) for v in vals])
+                for v in vals:
                     m.add(k, v)
             elif name == 'set':
                 k, v = KEYS[op[1] % len(KEYS)], VALUES[op[2] % len(VALUES)]
@@ -583,6 +625,6 @@ def run(case):
 
 
 SUBS = {
-    'omd': Sub('omd', strat, run, quick=16000, thorough=320000, doc='OMD histories vs list-of-pairs model',
+    'omd': Sub('omd', strat, run, quick=10000, thorough=320000, doc='OMD histories vs list-of-pairs model',
                quick_shards=8),
 }
